@@ -304,7 +304,7 @@ theorem modVerify_noPanic (H : HashFn) (sess : Bytes) (w : Int) (xs : List Int) 
   np_guard _n0
   have hodd : n.toNat % 2 ≠ 0 := by omega
   np_bind goJacobi_noPanic w hodd
-  np_guard _j; np_guard _w; np_guard _g; np_guard _z; np_guard _x; np_guard _a; np_guard _b
+  np_guard _j; np_guard _w; np_guard _g; np_guard _z; np_guard _x; np_guard _c; np_guard _a; np_guard _b
   np_bind modYs_noPanic H sess w n (by omega) _ _
   np_guard _p
   exact NoPanic.ok _
